@@ -128,7 +128,7 @@ func (d *stubDist) RoundTrip(q *http.Request) (*http.Response, error) {
 		for k, v := range hdr {
 			h.Set(k, v)
 		}
-		return &http.Response{StatusCode: code, Status: fmt.Sprintf("%d x", code), Header: h, Body: io.NopCloser(strings.NewReader("stub")), Request: q}, nil
+		return &http.Response{StatusCode: code, Status: fmt.Sprintf("%d x", code), Header: h, Body: io.NopCloser(strings.NewReader("stub")), ContentLength: 4, Request: q}, nil
 	}
 	if strings.HasPrefix(p, "/redirected/") {
 		code := 200
